@@ -92,6 +92,7 @@ template <class A> static void range_exec(const vh::Json& sc, const std::string&
     try {
         AddressRange<A> r = k == "prefix" ? T::slash(T::make(at(base, a)), 8 * N - W + (int)b)
                           : k == "mask" ? AddressRange<A>::from_mask(T::make(at(base, a)), T::make(at(window_base(N, W, "top"), b)))
+                          : k == "pairhosts" ? AddressRange<A>(T::make(at(base, a)), T::make(at(base, b)), true)
                           : AddressRange<A>(T::make(at(base, a)), T::make(at(base, b)));
         w.kv("threw", false);
         w.key("contains").A(); for (long x = 0; x < size; ++x) w.v(r.contains(T::make(at(base, x)))); w.E();
@@ -109,7 +110,7 @@ template <class A> static void range_exec(const vh::Json& sc, const std::string&
 }
 template <class A> static void range_all(const vh::Json& sc, vh::Out& out, bool post) {
     const char* wins[] = {"bot", "mid", "top", "carry"};
-    for (int i = 0; i < 4; ++i) { if (i == 3 && sc["k"].str() != "pair") continue; range_exec<A>(sc, wins[i], out, post); }
+    for (int i = 0; i < 4; ++i) { if (i == 3 && sc["k"].str() != "pair" && sc["k"].str() != "pairhosts") continue; range_exec<A>(sc, wins[i], out, post); }
 }
 
 template <class A> static void cmp_exec(const vh::Json& sc, vh::Out& out) {
